@@ -202,6 +202,12 @@ def enumeration(tier):
 
 
 PINNED = [
+    # regression case for fix 90bcc32 (was finding growing-with-more-than-n-directions): ZeroDivisionError out of solve()
+    dict(pinned="regression-growing-with-more-than-n-directions", np_seed=0,
+         cfg=dict(prob=dict(kind="sinlin", n=3, m=1, pseed=843609547), x0=[-0.5457026265929948, 1.1505587161506132, -1.0988786731116433],
+                  lower=None, upper=[-0.5394311096252616, 1.18920347607939, -1.0952521965756514],
+                  user_params={"general.safety_step_thresh": 0.8832703121068197, "growing.ndirs_initial": 3},
+                  args=dict(maxfun=15, rhoend=1.674234448362721e-08, npt=7, rhobeg=0.0016742344483627214))),
     dict(pinned="projections-with-npt-not-n+1-RuntimeError", np_seed=0,
          cfg=dict(prob=dict(kind="rosen", n=2, m=2, pseed=1), x0=[0.2, 0.3], lower=None, upper=None, proj=[dict(type="ball", c=[0.0, 0.0], r=0.9)],
                   args=dict(maxfun=20, rhoend=1e-4, rhobeg=0.1, npt=4), user_params={})),
@@ -415,12 +421,6 @@ def known_for(cfg, over=None):
         if kind == "exception":
             if isinstance(exc, RuntimeError) and "initial directions" in str(exc) and cfg.get("proj"):
                 mech = "projections-with-npt-not-n+1-RuntimeError" if (npt != n + 1 or "growing.ndirs_initial" in up) else "projections-x0-on-a-vertex-RuntimeError"
-            more_than_n = ("growing.ndirs_initial" in up and (npt > n + 1 or up.get("growing.num_new_dirns_each_iter", 0) >= 2)) or \
-                (up.get("restarts.increase_npt") and (up.get("restarts.increase_npt_amt", 1) != up.get("restarts.hard.increase_ndirs_initial_amt", 1)
-                                                      or "growing.ndirs_initial" in up))
-            if site in ("controller.py:add_new_direction_while_growing", "controller.py:get_new_direction_for_growing") and \
-                    isinstance(exc, (ZeroDivisionError, ValueError, np.linalg.LinAlgError)) and more_than_n:
-                mech = "growing-with-more-than-n-directions"
             if isinstance(exc, AssertionError) and "npt <= (n+1)(n+2)/2" in str(exc) and up.get("restarts.increase_npt") and \
                     up.get("restarts.max_npt", 0) > (n + 1) * (n + 2) // 2:
                 mech = "hard-restart-npt-exceeds-quadratic-limit"
